@@ -457,12 +457,12 @@ def main(argv=None):
                     "stays read-only) computed by a reference model of graph liveness that does not look at the lock tables",
         functions=["mygrad._utils.lock_management.lock_arr_writeability", "_release_lock_on_arr_writeability", "release_writeability_lock_on_op",
                    "array_is_tracked", "unique_arrs_and_bases", "Tensor._op (locking / finalize)", "Tensor.clear_graph"],
-        bounds={"universe (a)": "{B, V view of B, S, F (base not an array)}", "histories (b)": "<= 2 graphs + 1 event (quick), <= 3 (thorough)"},
+        bounds={"universe (a)": "{B, V view of B, S, F (base not an array)}", "histories (b)": "<= 2 graphs + 1 event (quick); thorough adds every third ordered triple of statements"},
         assumptions=["fake arrays expose flags.writeable / base only", "CPython reference counting is observed (gc disabled), not encoded",
                      "step-level counterexamples are never reported without a reproducing Tensor-level history"],
         outside=["finalizer timing under a cyclic GC pass", "threads", "arrays whose .base is neither an ndarray nor a buffer exporter (np.lib.stride_tricks.as_strided: NumPy refuses to make them writeable again)"],
     )
-    return common.main(PROP, "harness.C08", cs, args.tier, args.seed, describe, extra_evidence=extra, deadline_s=900)
+    return common.main(PROP, "harness.C08", cs, args.tier, args.seed, describe, extra_evidence=extra, deadline_s=900 if args.tier == "quick" else 3000)
 
 
 if __name__ == "__main__":
